@@ -195,7 +195,7 @@ func Sets() []*Set {
 	title2 := A.SetAttr("set-title-pn2", pn2.Ref, "title", "y", T(2))
 	add(&Set{Name: "camlicontent", Blobs: []hs.Blob{A.Pub, pn, content, sfile, small, pn2},
 		Attrs: []string{"camliContent", "title"}, Vals: []string{refStr(sfile)}, MaxRank: 2,
-		Quick: false, DupsThorough: "ends"})
+		Quick: false, DupsThorough: ""})
 	// Two permanodes whose creation order flips when p1's camliContent file becomes
 	// known: without the file p1 is dated by its camliContent claim (t1 < t2 of pn2's
 	// claim), with it by the file's modtime (2014, after t2). The file has no parts, so
@@ -242,7 +242,7 @@ func Sets() []*Set {
 	bDelA := B.Delete("B-del-A-claim", setTitle.Ref, T(3))
 	add(&Set{Name: "two-signers", Blobs: []hs.Blob{A.Pub, B.Pub, pn, setTitle, bSet, bDelA},
 		Attrs: []string{"title"}, Vals: []string{"x", "fromB"}, MaxRank: 3,
-		Quick: true, DupsThorough: "ends"})
+		Quick: true, DupsThorough: ""})
 
 	// 14. media files: image size, EXIF GPS, media tags (single-chunk files)
 	jpg := hs.Mk("jpg-chunk", testdata("pkg/search/testdata/dude-gps.jpg"), "")
